@@ -124,6 +124,8 @@ impl Spec {
         match self.origin {
             1 => d = d.lazer(false),
             2 => d = d.mods(ModSpec::Classic(None).build(self.shape.mode())),
+            // Classic next to a legacy mod, mode-less and handed over by reference
+            3 => d = d.mods(ModSpec::IntermodeRef("CLHD").build(self.shape.mode())),
             _ => {}
         }
         if let Some(p) = self.passed {
@@ -343,7 +345,7 @@ fn shapes(ctx: &Ctx) -> Vec<Shape> {
 
 fn main() {
     let ctx = Ctx::from_env("C12");
-    ctx.rule("case = (attribute shape, provided/absent pattern with values from {absent,0,1,[2,]N,[N+1,]N+3} for every hit result of the mode, accuracy, priority, lazer/stable/classic origin, passed_objects, combo, slider-hit spec); oracle = misses <= objects; provided results that fit are not reduced and the results add up to the number of judgements; combo <= max_combo - misses; generate_state idempotent; calculate() == .state(generated).calculate(); non-trivial = shape has at least one object and at least one hit result is provided");
+    ctx.rule("case = (attribute shape, provided/absent pattern with values from {absent,0,1,[2,]N,[N+1,]N+3} for every hit result of the mode, accuracy, priority, lazer / stable / lazer Classic / Classic+HD as &GameModsIntermode origin, passed_objects, combo, slider-hit spec); oracle = misses <= objects; provided results that fit are not reduced and the results add up to the number of judgements; combo <= max_combo - misses; generate_state idempotent; calculate() == .state(generated).calculate(); non-trivial = shape has at least one object and at least one hit result is provided");
     ctx.assume("attribute shapes are synthetic (built directly, no map); number of judgements as documented: objects, plus hold notes for lazer non-classic mania");
 
     let shapes = shapes(&ctx);
@@ -384,7 +386,7 @@ fn main() {
         } else {
             vec![None, Some(0), Some(1), Some(mc), Some(mc + 5)]
         };
-        let origins: u64 = if matches!(mode, GameMode::Osu | GameMode::Mania) { 3 } else { 1 };
+        let origins: u64 = if matches!(mode, GameMode::Osu | GameMode::Mania) { 4 } else { 1 };
         let slider_specs: u64 = if mode == GameMode::Osu { 4 } else { 1 };
         let prios: u64 = if mode == GameMode::Catch { 1 } else { 2 };
 
